@@ -1,9 +1,9 @@
 package props
 
 import (
-	"strings"
 	"fmt"
 	"go/token"
+	"strings"
 
 	"golang.org/x/tools/go/ssa"
 
